@@ -189,7 +189,15 @@ class C05(CheckBase):
         base["events"] = []
         if rng.random() < 0.3:
             # a concurrent second start on the same object while the first is in flight
-            if rng.random() < 0.5:
+            r = rng.random()
+            if r < 0.25:
+                # ... while the first is still resolving the host name (before any socket exists)
+                addr = base["client"]["addresses"][0]
+                fam = 6 if ":" in addr else 4
+                base["client"]["addresses"] = ["dev.example.com"]
+                base["net"]["resolver"] = {"dev.example.com": {"result": [[fam, addr]], "latency": pick(rng, [0.01, 0.2, 1.0])}}
+                base["actors"].append({"id": "a1", "at": {"on": "getaddrinfo", "turns": pick(rng, [0, 1, 2])}, "steps": [{"do": "conn.start"}]})
+            elif r < 0.5:
                 base["actors"].append({"id": "a1", "at": {"on": "sock_connect"}, "steps": [{"do": "conn.start"}]})
             else:
                 base["actors"].append({"id": "a1", "at": {"on": "state", "match": {"new": "SOCKET_OPENED"}, "turns": pick(rng, [1, 2])}, "steps": [{"do": "conn.finish", "login": False}]})
